@@ -93,8 +93,30 @@ class OsuMapMeta(
 ):
     def _read_meta_string_list(self, lines: List[str]):
         """Reads everything Meta"""
+        in_events = False
+        background_found = False
+        sample_lines = []
         for e, line in enumerate(lines):
             if line == "":
+                continue
+            if line.startswith("["):
+                in_events = line == "[Events]"
+                continue
+            if in_events:
+                # Events are told apart by their first field, not by the
+                # editor's (optional) // comment lines.
+                event = line.split(",")
+                if (
+                    event[0] in ("0", "Background")
+                    and len(event) >= 3
+                    and not background_found
+                ):
+                    background_found = True
+                    self.background_file_name = line[
+                        line.find('"') + 1 : line.rfind('"')
+                    ]
+                elif event[0] in ("Sample", "5"):
+                    sample_lines.append(line)
                 continue
             # Only the first colon separates key and value: values may hold colons
             k, *v = line.split(":", 1)
@@ -161,14 +183,7 @@ class OsuMapMeta(
             elif k == "SliderTickRate":
                 self.slider_tick_rate = float(v)
 
-            if k == "//Background and Video events":
-                line = lines[e + 1]
-                self.background_file_name = line[line.find('"') + 1 : line.rfind('"')]
-
-            if k == "//Storyboard Sound Samples":
-                self.samples = OsuSampleList.read(
-                    [line for line in lines[e + 1 :] if line.startswith("Sample")]
-                )
+        self.samples = OsuSampleList.read(sample_lines)
 
     def write_meta_string_list(self) -> List[str]:
         """Writes everything Meta"""
